@@ -37,6 +37,7 @@ def check(ctx):
     # mechanisms this property rests on (see shared.py): a change there is reported here as well
     from . import shared as _sh
 
+    _sh.path_tokenisers(ctx)
     _sh.graph_loader(ctx)
     _sh.cli_layer(ctx, "gaftools.cli.sort")
 
